@@ -365,7 +365,15 @@ impl World {
             .iter()
             .fold(ComponentAccess::new_true(), |acc, a| acc.and(a));
 
-        let conflicts = component_access_conjunction.collect_conflicts();
+        // Each parameter matches (or doesn't match) an entity independently of the
+        // others, so conflicts must be looked for in every subset of the parameters.
+        let conflicts = config
+            .component_accesses
+            .iter()
+            .fold(ComponentAccess::new_true(), |acc, a| {
+                acc.and(&ComponentAccess::new_true().or(a))
+            })
+            .collect_conflicts();
 
         if !conflicts.is_empty() {
             let mut errmsg = format!(
